@@ -2049,4 +2049,161 @@ theorem parseRaw_export (o : ExportOpts) (m : VMap) (h : MapOK1 m) :
     simp [rawRT, hmin, spawn_classname_idem o m h.spawn, entRT]
 
 
+
+
+/-! ### id allocation with `preserve_ids = True` -/
+
+theorem get_preserve (m : IdMan) (d : Int) (h : d ≠ -1) : (m.get true d).1 = d := by
+  have : (d == -1) = false := by simpa using h
+  simp [IdMan.get, this]
+
+mutual
+def VisIdsOK : Vis → Bool
+  | .mk _ id _ children => decide (id ≠ -1) && VisListIdsOK children
+def VisListIdsOK : List Vis → Bool
+  | [] => true
+  | v :: vs => VisIdsOK v && VisListIdsOK vs
+end
+
+mutual
+theorem assignVis_preserve : (v : Vis) → (m : IdMan) → VisIdsOK v = true → (assignVisAux true v m).1 = v
+  | .mk name id color children, m, h => by
+    simp only [VisIdsOK, Bool.and_eq_true, decide_eq_true_eq] at h
+    simp only [assignVisAux]
+    rw [assignVisList_preserve children m h.2, get_preserve _ _ h.1]
+theorem assignVisList_preserve : (vs : List Vis) → (m : IdMan) → VisListIdsOK vs = true →
+    (assignVisAux.assignVisList true vs m).1 = vs
+  | [], _, _ => rfl
+  | v :: vs, m, h => by
+    simp only [VisListIdsOK, Bool.and_eq_true] at h
+    simp only [assignVisAux.assignVisList]
+    rw [assignVis_preserve v m h.1, assignVisList_preserve vs _ h.2]
+end
+
+theorem assignSides_preserve (ss : List Side) (m : IdMan) (h : ∀ s ∈ ss, s.id ≠ -1) :
+    (assignSides true ss m).1 = ss := by
+  induction ss generalizing m with
+  | nil => rfl
+  | cons s r ih =>
+    simp only [assignSides]
+    rw [get_preserve _ _ (h s (by simp)), ih _ (fun x hx => h x (by simp [hx]))]
+
+abbrev SolidIdsOK (s : Solid) : Prop := s.id ≠ -1 ∧ ∀ sd ∈ s.sides, sd.id ≠ -1
+
+theorem assignSolids_preserve (ss : List Solid) (st : Ids) (h : ∀ s ∈ ss, SolidIdsOK s) :
+    (assignSolids true ss st).1 = ss := by
+  induction ss generalizing st with
+  | nil => rfl
+  | cons s r ih =>
+    have hs := h s (by simp)
+    simp only [assignSolids]
+    rw [assignSides_preserve _ _ hs.2, get_preserve _ _ hs.1, ih _ (fun x hx => h x (by simp [hx]))]
+
+def fixLogical (e : Ent) : Ent :=
+  { e with logicalPos := if e.logicalPos.isEmpty then defaultLogical e.id else e.logicalPos }
+
+abbrev EntIdsOK (e : Ent) : Prop := e.id ≠ -1 ∧ ∀ s ∈ e.solids, SolidIdsOK s
+
+theorem assignEnt_preserve (e : Ent) (st : Ids) (h : EntIdsOK e) : (assignEnt true e st).1 = fixLogical e := by
+  simp only [assignEnt, fixLogical]
+  rw [assignSolids_preserve _ _ h.2, get_preserve _ _ h.1]
+
+theorem assignEnts_preserve (es : List Ent) (st : Ids) (h : ∀ e ∈ es, EntIdsOK e) :
+    (assignEnts true es st).1 = es.map fixLogical := by
+  induction es generalizing st with
+  | nil => rfl
+  | cons e r ih =>
+    simp only [assignEnts, List.map_cons]
+    rw [assignEnt_preserve _ _ (h e (by simp)), ih _ (fun x hx => h x (by simp [hx]))]
+
+theorem assignGroups_preserve (gs : List Group) (m : IdMan) (acc : List Group)
+    (h1 : ∀ g ∈ gs, g.id ≠ -1) (h2 : ((acc ++ gs).map (·.id)).Nodup) :
+    (assignGroups true gs m acc).1 = acc ++ gs := by
+  induction gs generalizing m acc with
+  | nil => simp [assignGroups]
+  | cons g r ih =>
+    simp only [assignGroups]
+    rw [get_preserve _ _ (h1 g (by simp))]
+    have hnot : acc.any (fun x => x.id == g.id) = false := by
+      simp only [List.any_eq_false, beq_iff_eq]
+      intro x hx e
+      simp only [List.map_append, List.map_cons, List.nodup_append] at h2
+      exact h2.2.2 x.id (by simp only [List.mem_map]; exact ⟨x, hx, rfl⟩) g.id (by simp) e
+    have hg : ({ g with id := g.id } : Group) = g := by cases g; rfl
+    simp only [hnot, Bool.false_eq_true, if_false, hg]
+    rw [ih _ _ (fun x hx => h1 x (by simp [hx])) (by simpa using h2)]
+    simp
+
+/-- ids that `preserve_ids=True` keeps: none is the "allocate" marker `-1`; group ids distinct
+(they key the `groups` dict). -/
+structure IdsOK (m : VMap) : Prop where
+  vis : VisListIdsOK m.vis = true
+  groups : ∀ g ∈ m.groups, g.id ≠ -1
+  groupsDistinct : (m.groups.map (·.id)).Nodup
+  spawn : EntIdsOK m.spawn
+  ents : ∀ e ∈ m.ents, EntIdsOK e
+
+theorem assignIds_preserve (m : VMap) (h : IdsOK m) :
+    assignIds true m = { m with spawn := fixLogical m.spawn, ents := m.ents.map fixLogical } := by
+  simp only [assignIds]
+  rw [assignVisList_preserve _ _ h.vis, assignGroups_preserve _ _ [] h.groups (by simpa using h.groupsDistinct),
+    assignEnt_preserve _ _ h.spawn, assignEnts_preserve _ _ h.ents]
+  simp
+
+
+
+
+theorem projSide_of_ok1 (mb : Bool) (s : Side) (h : SideOK1 s = true) : projSide mb s = s := by
+  simp only [SideOK1, Bool.and_eq_true, Option.isNone_iff_eq_none] at h
+  cases s
+  simp_all [projSide]
+
+theorem projSolid_eq (mb w : Bool) (s : Solid) (h : SolidOK1 s = true) :
+    projSolid mb w s = solidRT w s.hidden s := by
+  simp only [SolidOK1, Bool.and_eq_true, List.all_eq_true] at h
+  have : s.sides.map (projSide mb) = s.sides := by
+    have := List.map_congr_left (l := s.sides) (f := projSide mb) (g := id)
+      (fun x hx => projSide_of_ok1 mb x (h.1 x hx))
+    simpa using this
+  cases s
+  simp_all [projSolid, solidRT]
+
+theorem projEnt_eq (mb w : Bool) (e : Ent) (h : EntOK1 e) :
+    fixLogical (entRT w (if w then false else e.hidden) e) = projEnt mb w e := by
+  have hs : e.solids.map (projSolid mb w) = e.solids.map (fun s => solidRT w s.hidden s) :=
+    List.map_congr_left (fun s hs => projSolid_eq mb w s (h.solids s hs))
+  cases w <;> cases hl : e.logicalPos <;>
+    simp [fixLogical, entRT, projEnt, hs, hl]
+
+theorem idsOK_rawRT (o : ExportOpts) (m : VMap) (h : IdsOK m) : IdsOK (rawRT o m) := by
+  have solidsOK : ∀ (w : Bool) (ss : List Solid), (∀ s ∈ ss, SolidIdsOK s) →
+      ∀ s ∈ ss.map (fun s => solidRT w s.hidden s), SolidIdsOK s := by
+    intro w ss hss s hs
+    simp only [List.mem_map] at hs
+    obtain ⟨t, ht, rfl⟩ := hs
+    exact hss t ht
+  refine ⟨h.vis, h.groups, h.groupsDistinct, ⟨h.spawn.1, ?_⟩, ?_⟩
+  · exact solidsOK true _ h.spawn.2
+  · intro e he
+    simp only [rawRT, List.mem_map] at he
+    obtain ⟨t, ht, rfl⟩ := he
+    exact ⟨(h.ents t ht).1, solidsOK false _ (h.ents t ht).2⟩
+
+theorem fix_rawRT_eq_project (o : ExportOpts) (m : VMap) (h : MapOK1 m) :
+    ({ rawRT o m with spawn := fixLogical (rawRT o m).spawn, ents := (rawRT o m).ents.map fixLogical } : VMap)
+      = project o m := by
+  have hsp := entOK1_spawnForExport o m h.spawn
+  have e1 : fixLogical (rawRT o m).spawn = projEnt o.multiblend true (spawnForExport o m) := by
+    have := projEnt_eq o.multiblend true (spawnForExport o m) hsp
+    simpa [rawRT] using this
+  have e2 : (rawRT o m).ents.map fixLogical = m.ents.map (projEnt o.multiblend false) := by
+    simp only [rawRT, List.map_map]
+    apply List.map_congr_left
+    intro e he
+    have := projEnt_eq o.multiblend false e (h.ents e he)
+    simpa using this
+  rw [e1, e2]
+  cases hmin : o.minimal <;> simp [rawRT, project, hmin]
+
+
 end C06
